@@ -138,6 +138,18 @@ func replayWith(h *harness, body, comments []string) (bool, string) {
 					}
 				}
 			}
+		case "vrfu":
+			// vrfu sk seed r index role
+			if len(f) == 6 {
+				sk, e1 := hex.DecodeString(f[1])
+				sd, e2 := hex.DecodeString(f[2])
+				rb, e3 := hex.DecodeString(f[3])
+				ix, _ := strconv.ParseUint(f[4], 10, 32)
+				ro, _ := strconv.ParseUint(f[5], 10, 32)
+				if e1 == nil && e2 == nil && e3 == nil {
+					h.vrfuCase(sk, sd, rb, uint32(ix), uint32(ro), true)
+				}
+			}
 		case "mgr":
 			// mgr basehex key,key,key, who script(with _ for spaces)
 			if len(f) == 5 {
